@@ -41,6 +41,7 @@ def _analyses():
     from .analyses import a2_binding as a2
     from .analyses import a3_shape as a3
     from .analyses import a3_reduce
+    from .analyses import a16_perm
     from .analyses import a4_kind as a4
     from .analyses import a5_factor, a5_linear, a7_axis, a8_taint
     from .analyses import kernel_api as ka
@@ -53,14 +54,14 @@ def _analyses():
     thread = lambda c, w: kt.global_effects(c, w, thread=True)
     return {
         "C01": (
-            [a3.vjp, a3.helpers, a3_reduce.reductions, vjp_axis, a2.catchall, a2.variadic, a1.arity, ka.option_domains, a5_factor.agree, ka.arraybox_table],
+            [a3.vjp, a3.helpers, a3_reduce.reductions, a16_perm.permutations_rule, a16_perm.norm_rolls, vjp_axis, a2.catchall, a2.variadic, a1.arity, ka.option_domains, a5_factor.agree, ka.arraybox_table],
             "Reverse-mode exactness is numerical; decided here are the configuration-dependent plumbing clauses every exact rule needs: "
             "broadcast discipline of VJPs (A3.vjp), negative-axis hazards (A7), keyword/positional binding behind catch-alls (A2.catchall), "
             "variadic offsets (A2.variadic), arity (A1.arity), closed option domains (A6.enum), VJP/JVP factor agreement of elementwise rules (A5) "
             "and the operator/method call forms (A14). Each is a necessary condition: breaking one makes some call configuration silently wrong.",
         ),
         "C02": (
-            [a1.lin, a3.jvp, a3.helpers, a3_reduce.reductions, ka.sibling_guards, jvp_axis, a2.catchall, a1.arity, kc.zero_paths],
+            [a1.lin, a3.jvp, a3.helpers, a3_reduce.reductions, a16_perm.norm_rolls, ka.sibling_guards, jvp_axis, a2.catchall, a1.arity, kc.zero_paths],
             "Forward-mode: 'same'/def_linear only on linear (function, argument) pairs (A1.lin: exactly when the primitive applied to the tangent IS the JVP), "
             "output-shaped tangents of broadcasting JVPs (A3.jvp), guard agreement with the VJP twin (A6.sibling), axis hazards (A7) and binding (A2) of JVP makers, "
             "(value, tangent) order and zero tangents of the right space (A13.zero/A2.tuple).",
